@@ -99,6 +99,18 @@ CLAIMED = {
              "interpreter that a started Task equals its eager twin and that cancellation runs no value callback, and every "
              "program is executed on the real Task API (nothing may run before the start).",
         note=SEQ_NOTE, design="7/C12", technique="TLA+ reference interpreter; TLC-enumerated programs replayed on the code"),
+    "C13": dict(
+        text="Await.tla models a coroutine that awaits 1-2 futures completed by concurrent producers, for co_await Future, "
+             "Await, AwaitSticky and AwaitOn (static and iterator forms): await_ready / await_suspend as the SetCallback load "
+             "and CAS on each future's word, the event counter (n + 1, fix-up fetch_sub, acquire read, SubEqual by the "
+             "suspender and by every completion), inline resumption vs Submit to the coroutine's own / the named executor, "
+             "final_suspend publishing the result and Drop on a rejecting executor; TLC checks: resumed at most once, only "
+             "after everything awaited has happened, with the awaited outcomes, dropped only through a rejecting executor "
+             "(StopError, no resumption, frame local destroyed once), no data race on the frame or the results; every "
+             "schedule of the real coroutine (up to the preemption bound) is validated against the specification by TLC; "
+             "a compile probe instantiates all 25 documented awaiting forms.",
+        note=CONC_NOTE + "; SharedFuture / Task awaiting, Yield, CurrentExecutor: compile probe only", design="7/C13",
+        technique="TLA+ spec + TLC model checking; schedule enumeration on the code with TLC trace validation; compile probe"),
     "C14": dict(
         text="CoMutex.tla models yaclib::Mutex<Batching,FIFO> with the pool's workers as processes and the coroutines as "
              "passive objects: sender word (not locked / locked / LIFO list of new waiters), holder-private receiver list, "
@@ -215,7 +227,7 @@ def main():
 
 
 HOOK_COMMITS = ["286d692", "d1e7f53", "baaa718"]
-FIX_COMMITS = ["8086256", "48cc44a", "6c036e9", "8faf037", "f30eead", "d8002b9", "fc2e11e", "6ed24f0"]
+FIX_COMMITS = ["8086256", "48cc44a", "6c036e9", "8faf037", "f30eead", "d8002b9", "fc2e11e", "6ed24f0", "79981a2"]
 
 if __name__ == "__main__":
     main()
